@@ -68,6 +68,15 @@ func related(r *lib.Rng, g *bf.Gen, x *big.Int) *big.Int {
 		if x.Sign() != 0 {
 			v.ModInverse(x, g.P)
 		}
+	case 5, 6: // the stored (Montgomery) product a*b*R lands on 0, +-1, +-2, +-3
+		k := new(big.Int).ModInverse(bf.Mod(bf.Pow2(g.Bits), g.P), g.P)
+		if r.Bool() {
+			k.SetInt64(1)
+		}
+		if y := g.Partner(r, x, k); y != nil {
+			return y
+		}
+		return g.Draw(r)
 	default:
 		return g.Draw(r)
 	}
@@ -89,7 +98,7 @@ func runBase[T comparable, PT baseElt[T]](t *testing.T, d baseDesc, extra func(c
 			viol("wrong-residue:"+n+"."+op, monFF, kv...)
 		}
 	}
-	bf.Chunks(nTuples(), chunk, func(lo, hi int, c bf.Ctr) {
+	bf.Chunks(nTuplesGo(), chunk, func(lo, hi int, c bf.Ctr) {
 		for i := lo; i < hi; i++ {
 			r := lib.NewRng("c12/"+n, i)
 			xv := d.gen.Draw(r)
@@ -650,7 +659,7 @@ func TestVerifFFFp2(t *testing.T) {
 		}
 		return 0
 	}
-	bf.Chunks(nTuples()/2, chunk, func(lo, hi int, c bf.Ctr) {
+	bf.Chunks(nTuplesGo()/2, chunk, func(lo, hi int, c bf.Ctr) {
 		for i := lo; i < hi; i++ {
 			r := lib.NewRng("c12/"+n, i)
 			xa := drawF2(r)
@@ -1002,7 +1011,16 @@ func TestVerifFFFp12(t *testing.T) {
 				viol("wrong-predicate:ff.LineValue.IsZero", monTow)
 			}
 		})
-	// the fast Frobenius of the model equals x^p by plain exponentiation
+	// model self-checks: xi = 1+u is neither a square nor a cube in Fp2 (so X^6 - xi is
+	// irreducible and the model is the field GF(p^12)); the fast Frobenius equals x^p by
+	// plain exponentiation; r divides p^4 - p^2 + 1
+	xi := bf.F2{big.NewInt(1), big.NewInt(1)}
+	p2m1 := new(big.Int).Sub(new(big.Int).Mul(blsP, blsP), big.NewInt(1))
+	one2 := bf.F2{big.NewInt(1), new(big.Int)}
+	if bf.F2Eq(bf.F2Exp(xi, new(big.Int).Div(p2m1, big.NewInt(2))), one2) || bf.F2Eq(bf.F2Exp(xi, new(big.Int).Div(p2m1, big.NewInt(3))), one2) ||
+		new(big.Int).Mod(p2m1, big.NewInt(6)).Sign() != 0 || !blsP.ProbablyPrime(20) || !blsR.ProbablyPrime(20) {
+		t.Fatal("model self-check: 1+u must be a quadratic and cubic non-residue of GF(p^2)")
+	}
 	r := lib.NewRng("c12/ff.selfcheck", 0)
 	for k := 0; k < 2; k++ {
 		xp := drawPoly(r, 6)
@@ -1042,6 +1060,11 @@ func TestVerifFFCyclo(t *testing.T) {
 		for i := lo; i < hi; i++ {
 			r := lib.NewRng("c12/ff.Cyclo6", i)
 			fpoly := drawPoly(r, 6)
+			if i%4 != 0 { // mostly elements outside every proper subfield (those all map to 1)
+				for k := range fpoly {
+					fpoly[k] = bf.F2{fpGen.Draw(r), fpGen.Draw(r)}
+				}
+			}
 			if bf.PIsZero(fpoly) || i%50 == 7 {
 				fpoly = bf.POne(6)
 			}
